@@ -1,7 +1,7 @@
 (* Props/C09.v — The k-space trajectory is the running integral of the gradients.
    Only statements, each closed by [exact] of a lemma from Proofs/KSpaceProofs.v, with Print Assumptions. *)
 From Coq Require Import ZArith QArith Qabs List Bool Arith Lia Lqa.
-From PV Require Import Base.QUtil Base.PWL Gen.GenExport Model.Export Model.KSpace Proofs.KSpaceProofs Proofs.PrimProofs Proofs.ExportProofs Proofs.ExportArea Proofs.KSpaceFinal.
+From PV Require Import Base.QUtil Base.PWL Gen.GenExport Model.Export Model.KSpace Proofs.KSpaceProofs Proofs.PrimProofs Proofs.ExportProofs Proofs.ExportArea Proofs.KSpaceFinal Proofs.KSpaceBridge.
 Import ListNotations.
 Open Scope Q_scope.
 
@@ -36,6 +36,20 @@ Print Assumptions C09_other_uses_ignored.
 Theorem C09_period_table : forall M evs t, ev_sorted evs -> k_tab M evs t = k_at M evs t.
 Proof. exact k_tab_is_k_at. Qed.
 Print Assumptions C09_period_table.
+
+(* The loop of calculate_kspace as the code writes it — two separate sorted lists t_excitation / t_refocusing
+   (pulses of other uses are in neither), period starts = 0 and the union of both lists, one pointer per list
+   advanced with min(len - 1, ii + 1), excitation tested before refocusing — equals, for every strictly
+   time-sorted pulse list with positive times, the fold over the pulses at or before t, and therefore the
+   specification "integral since the last excitation, negated at each refocusing". *)
+Theorem C09_period_loop : forall M evs t, ev_sorted_strict evs -> Forall (fun e => 0 < fst e) evs ->
+  k_loop M evs t = k_at M evs t.
+Proof. exact k_loop_is_k_at. Qed.
+Print Assumptions C09_period_loop.
+Theorem C09_period_loop_is_spec : forall M evs t, ev_sorted_strict evs -> Forall (fun e => 0 < fst e) evs ->
+  k_loop M evs t == spec_k M (upto t evs) t.
+Proof. exact k_loop_is_spec. Qed.
+Print Assumptions C09_period_loop_is_spec.
 
 Theorem C09_adc_times_formula : forall start a i, (i < adc_n a)%nat ->
   length (adc_sample_times start a) = adc_n a /\
@@ -95,6 +109,12 @@ Print Assumptions C09_no_rf_final_is_sum_of_areas.
 Example C09_classify_example :
   classify None = Exc /\ classify (Some rf_use_refocusing) = Ref /\ classify (Some [105%Z]) = Other.
 Proof. vm_compute. repeat split. Qed.
+
+Example C09_loop_example :
+  (* the literal loop on the same pulses, incl. the pointer that stays on the last excitation *)
+  k_loop (fun t => t) [(1, Exc); (2, Other); (3, Ref); (5, Ref)] 6 == 1 /\
+  loop_table (fun t => t) [(1, Exc); (3, Ref)] = [(0, - 0); (1, - (1)); (3, - (2) * 3 - - (1))].
+Proof. split; [vm_compute; reflexivity|reflexivity]. Qed.
 
 Example C09_spin_echo_example :
   (* M(t) = t; excitation at 1, refocusing at 3: k(4) = -(3 - 1) + (4 - 3) = -1 *)
